@@ -103,6 +103,12 @@ func Fresh(out, data []byte) bool {
 // cannot be observed (always true); the generator decides it on allocation identities.
 func Owned(x interface{}) bool { return true }
 
+// Watermark and BaseOf name allocation identities: all memory allocated so far by the function under contract has
+// an identity at most Watermark(); BaseOf(x) is the identity of the memory a slice or pointer refers to (0 = nil).
+// Natively they cannot be observed (constants); the generator decides clauses that use them.
+func Watermark() uint64           { return ^uint64(0) }
+func BaseOf(x interface{}) uint64 { return 0 }
+
 // Window reports whether out is exactly the window data[lo:hi] of the same
 // memory (an alias, not a copy).
 func Window(out, data []byte, lo, hi int) bool {
